@@ -266,6 +266,51 @@ Section VarsP.
     intros Hn Hv. unfold expand_bound. destruct (Nat.eqb_spec (length l) nvars); [contradiction|].
     destruct (Nat.eqb_spec (length l) n); [contradiction | reflexivity].
   Qed.
+
+  (* ---- the sensitivity row of one response: block i is the sensitivity of signal i, or 0*state when it is None *)
+  Definition sens_fits (st : sval A) (g : option (sval A)) : Prop :=
+    match g with Some v => length (flat v) = length (flat st) | None => True end.
+
+  Lemma flat_smap (f : A -> A) (v : sval A) : flat (smap f v) = map f (flat v).
+  Proof. destruct v; reflexivity. Qed.
+
+  Lemma sens_items_lens (z : A -> A) (states : list (sval A)) (sens : list (option (sval A))) :
+    Forall2 sens_fits states sens ->
+    lens (map (fun p => sens_item z (fst p) (snd p)) (combine states sens)) = lens states.
+  Proof.
+    induction 1 as [|st g states sens Hf _ IH]; [reflexivity|].
+    cbn [combine map lens]. unfold lens in IH. rewrite IH. f_equal.
+    destruct g as [v|]; cbn [sens_item fst snd]; [exact Hf|]. rewrite flat_smap, map_length. reflexivity.
+  Qed.
+
+  Lemma sens_items_nth (z : A -> A) (states : list (sval A)) (sens : list (option (sval A))) :
+    Forall2 sens_fits states sens -> forall i, i < length states ->
+    nth i (map (fun p => sens_item z (fst p) (snd p)) (combine states sens)) dflt
+    = sens_item z (nth i states dflt) (nth i sens None).
+  Proof.
+    induction 1 as [|st g states sens _ _ IH]; intros i Hi; [cbn in Hi; lia|].
+    destruct i as [|i]; [reflexivity|]. cbn [combine map nth]. apply IH. cbn in Hi. lia.
+  Qed.
+
+  Theorem sens_row_blocks (z : A -> A) (states : list (sval A)) (sens : list (option (sval A))) :
+    Forall2 sens_fits states sens ->
+    let row := sens_row z states sens in
+    length row = total states /\
+    forall i, i < length states ->
+      slice row (nth i (cumlens states) 0) (nth (S i) (cumlens states) 0)
+      = match nth i sens None with Some g => flat g | None => map z (flat (nth i states dflt)) end.
+  Proof.
+    intros HF row. subst row. unfold sens_row. rewrite concat_spec. cbn [fst].
+    set (its := map (fun p => sens_item z (fst p) (snd p)) (combine states sens)).
+    assert (HL : lens its = lens states) by (apply sens_items_lens; exact HF).
+    assert (Hlen : length its = length states).
+    { pose proof (f_equal (@length nat) HL) as E. unfold lens in E. rewrite !map_length in E. exact E. }
+    split.
+    - rewrite length_flat_map. unfold total. rewrite HL. reflexivity.
+    - intros i Hi. replace (cumlens states) with (cumlens its) by (unfold cumlens; rewrite HL; reflexivity).
+      rewrite slice_range by lia. unfold its. rewrite sens_items_nth by assumption.
+      destruct (nth i sens None) as [g|]; cbn [sens_item]; [reflexivity | apply flat_smap].
+  Qed.
 End VarsP.
 
 (* ================================================================================================================
